@@ -41,6 +41,7 @@ def setup(ctx):
     ctx.require("monitor", "l1_scenarios", 500)
     ctx.require("monitor", "responses_judged", 300)
     ctx.require("monitor", "l2_scenarios", 20)
+    ctx.require("monitor", "l3_connections", 10)
 
 
 # --------------------------------------------------------------------------- generators
@@ -585,10 +586,86 @@ def run_l2_scenario(ctx, scn, tlsbench):
         close_loop(loop)
 
 
+def run_l3(ctx):
+    """Live loopback sample on both backends: raw TLS client reads to EOF, same automaton.
+    Cases where the client sends more than the server needs are undecided here (kernel RST may
+    discard the response in flight); they are decided at L1/L2."""
+    from nauyaca.server.protocol import GeminiServerProtocol
+
+    from vf import live
+
+    from nauyaca.server import protocol as P
+
+    rng = ctx.rng("l3")
+    n = ctx.pick(40, 900)
+    old_rt = P.REQUEST_TIMEOUT
+    P.REQUEST_TIMEOUT = 0.6  # value only: incomplete uploads are answered with 40 after 0.6 s instead of 30 s
+    try:
+        _run_l3(ctx, rng, n)
+    finally:
+        P.REQUEST_TIMEOUT = old_rt
+
+
+def _run_l3(ctx, rng, n):
+    from nauyaca.server.protocol import GeminiServerProtocol
+
+    from vf import live
+
+    for backend in ("stdlib", "pyopenssl"):
+        plan = {}
+        holder = {}
+
+        def factory():
+            import asyncio
+
+            loop = asyncio.get_running_loop()
+            log = []
+            scn = plan["scn"]
+            h = SpyHandler(scn["handler"], log, loop)
+            mw = SpyMiddleware(scn["middleware"], log, loop) if scn.get("middleware") else None
+            up = SpyUpload(scn["upload"], log, loop) if scn.get("upload") else None
+            holder.update(h=h, mw=mw, up=up)
+            return GeminiServerProtocol(h, mw, up)
+
+        with live.ProtocolServer(factory, backend=backend) as srv:
+            for i in range(n // 2):
+                data, label = gen_request(rng)
+                hs, ms, us = gen_handler_spec(rng), gen_mw_spec(rng), gen_upload_spec(rng)
+                for spec in (hs, ms, us):
+                    if spec and spec.get("delay", 0) > 1:
+                        spec["delay"] = 0.05  # real time here
+                    elif spec and spec.get("delay"):
+                        spec["delay"] = 0.01
+                scn = {"routing": "spy", "label": label, "request": data.hex(), "handler": hs, "middleware": ms, "upload": us, "backend": backend}
+                plan["scn"] = scn
+                holder.clear()
+                needs_all = b"\r\n" in data[:1026]
+                complete_at = data.find(b"\r\n") + 2 if needs_all else len(data)
+                extra = len(data) - complete_at if needs_all else max(0, len(data) - 1025)
+                if not needs_all and len(data) <= 1024:
+                    continue  # would only time out after 30 s of real time; decided on the virtual clock
+                r = live.fetch_raw(srv.port, data, timeout=20)
+                ctx.count("monitor", "l3_connections")
+                titan = data.startswith(b"titan://")
+                if r["reset"] or (r["error"] and not r["eof"] and (extra > 0 or titan)):
+                    ctx.undecided("L3:reset-after-unread-client-bytes")
+                    continue
+                obs = {"stream": r["data"], "closing": r["eof"] or bool(r["error"]), "lost": True, "client_gone": False, "fatal": None,
+                       "loop_exceptions": [], "end": None, "end_time": r["t"], "handler_calls": len(holder["h"].calls) if holder.get("h") else 0,
+                       "upload_calls": len(holder["up"].calls) if holder.get("up") else 0, "mw_calls": len(holder["mw"].calls) if holder.get("mw") else 0,
+                       "dropped_writes": 0, "states": set(), "kinds": [], "backend": backend}
+                if r.get("timeout"):
+                    obs["closing"] = False
+                judge(ctx, scn, obs, level="L3")
+                ctx.case(("L3", backend, label, obs["stream"][:2], r["eof"]), True, sample={"level": "L3", "backend": backend, "label": label, "stream": r["data"][:80], "eof": r["eof"]})
+
+
 def run(ctx):
     try:
         run_l1(ctx)
         run_l2(ctx)
+        if ctx.shard == 0:
+            run_l3(ctx)
     finally:
         cleanup()
 
